@@ -524,7 +524,7 @@ func runC18(p *plan.Plan, keepLog bool, soloOnly bool) (*plan.Result, *C18Stats)
 						setAbort()
 						break
 					}
-					if !haveBase && o.Hang {
+					if !haveBase && o.Hang && !o.Deadlock {
 						tr.hung = true
 						setAbort()
 						break
@@ -584,12 +584,24 @@ func runC18(p *plan.Plan, keepLog bool, soloOnly bool) (*plan.Result, *C18Stats)
 		for _, tr := range runs {
 			hung = hung || tr.hung
 		}
-		if hung && !deadlocked() {
+		if hung {
 			// without a baseline the budget is absolute; a call that exceeds it was
-			// abandoned by the simulator and what follows in this process gives no
-			// verdict (the ordinary jobs, which know each call's solo length, decide
-			// hangs)
+			// abandoned by the simulator (possibly holding a lock) and what follows
+			// in this process gives no verdict (the ordinary jobs, which know each
+			// call's solo length, decide hangs)
 			return skipped()
+		}
+		if deadlocked() {
+			// every live task waited for a lock none of them could release: that is
+			// the violation, whatever the solo phase would say (and the solo phase
+			// could say nothing reliable in a process whose locks are now stuck)
+			addViol(plan.Violation{Property: "C18", Class: "C18/deadlock", Key: "deadlock",
+				Detail: "every live task waits for a lock that none of them can release (cold process state, concurrent phase first)"})
+			res.Stats["cold_runs"] = 1
+			res.Stats["fault_lock_wait"] = sLockWaits
+			res.Sig = planSig(p)
+			res.Digest = "deadlock"
+			return res, stats
 		}
 		sw, steps := stats.Switches, stats.Steps
 		evh := sEvHash
